@@ -245,6 +245,50 @@ def interpreter_arms(O):
             O.inconclusive("vacuous: case %s not explored" % need)
 
 
+def end_only_when_exhausted(O, R):
+    """next_with_context returns Ok(None) only from the statement dispatch with no statement left, calls nothing else on
+    that path and stays in the dispatch state - so the end, once reported, is reported again by every later call."""
+    m, fn, eng, paths, outer = explore_arms(O)
+    me0 = eng.deref(initial(fn, 1))
+    tag0 = state_tag(eng, m, me0)
+    S = {n: bv64(m.vidx("StmtIteratorState", n)) for n in m.enums["StmtIteratorState"]}
+    n = 0
+    for p in paths:
+        if p.outcome != "return":
+            continue
+        eng.focus(p)
+        rt = eng.tag_of(p.ret, None)
+        ot = eng.tag_of(eng.field(eng.downcast(p.ret, "Ok"), 0), None)
+        cond = [rt == bv64(0), ot == bv64(0)]
+        r, _ = O.solve(list(p.pc) + cond, want_model=False)
+        if r != "sat":
+            continue
+        n += 1
+        if not R.prove(O, p, tag0 == S["Iterate"], "the end of the rows is reported only by the statement dispatch of a block "
+                       "(not from a loop / while bookkeeping state)", extra=cond):
+            continue
+        nx = p.calls(r"Iterator>::next$")
+        others = [e for e in names_of(p)]
+        if len(nx) != 1:
+            R.fail(O, p, "the end is reported after taking %d statements" % len(nx), extra=cond)
+            continue
+        R.prove(O, p, eng.tag_of(nx[0].ret, None) == bv64(0), "the end of the rows is reported only when the block has no "
+                "statement left", extra=cond)
+        if others:
+            R.fail(O, p, "reporting the end performs %s" % others, extra=cond)
+        me = eng.deref(p.args.fields[1])
+        nt = eng.tag_of(eng.field(me, m.fidx("StmtIterator", "inner_state")), None)
+        R.prove(O, p, nt == S["Iterate"], "an exhausted block stays exhausted: the next call reports the end again", extra=cond)
+    if n == 0:
+        O.inconclusive("vacuous: no path returns Ok(None)")
+
+
+@obligation("C01/end-only-when-exhausted", desc="next_with_context: Ok(None) only from the statement dispatch with no statement "
+            "left (never from a skipped loop or a finished while), with nothing else called, leaving the dispatch state")
+def o_end_only_when_exhausted(O):
+    end_only_when_exhausted(O, rep())
+
+
 @obligation("C01/data-row", desc="Iterate arm for a data row (<= 3 entries): every entry is evaluated exactly once, in order; "
             "the row carries the concatenated results, the statement's line and update_output = true; an evaluation error "
             "ends the row")
@@ -563,3 +607,11 @@ for _f in STATEMENT_FORMS:
 def variables_first(O):
     from . import C04
     C04.ctx_get(O, rep())
+
+
+@obligation("C01/construction-answer-installed", profiles=("dev",),
+            desc="try_new / new_with_outputs: the environment of statements that run before the first row (a loop bound, a while "
+                 "condition, a let that names a device output) is the answer to the constructor's call")
+def construction_answer_installed(O):
+    from . import C04
+    C04.construction_answer(O, rep())
